@@ -27,7 +27,7 @@ pub fn property() -> Property {
             "H7 ages cache entries (the cache uses std::time::Instant)",
             "kernel loopback for the dial family",
         ],
-        families: vec![(Box::new(CodecFam), 100_000, 2_000_000), (Box::new(ResolveFam), 3_000, 100_000), (Box::new(DialFam), 100, 2_000)],
+        families: vec![(Box::new(CodecFam), 100_000, 2_000_000), (Box::new(ResolveFam), 3_000, 100_000), (Box::new(DialFam), 100, 2_000), (Box::new(crate::props::front::FrontFam), 300, 3_000)],
     }
 }
 
